@@ -144,3 +144,35 @@ def axis_room(seed):
             R = R @ rot_axis((math.cos(ta), math.sin(ta), 0), rnd.uniform(0.03, 0.15))
         cf.append((R, np.array([gx, gy, z])))
     return {'bs': bs, 'cf': cf, 'ids': ids}
+
+
+def chain_room(seed):
+    """Partial-visibility chain: Crazyflie pose k is seen by base stations k and k+1 only, so every base-station pair is
+    seen in just one or two poses (the estimator's vote between the mirror solutions then rests on the order in which
+    the planar pose solver returns them).  Poses keep 0.8 m away from the point midway between their two base stations,
+    where the mirror image of one station falls onto the other (degenerate, outside the envelope)."""
+    rnd = random.Random(seed)
+    n_bs = rnd.randint(3, 6)
+    n_cf = n_bs + rnd.randint(0, 2)
+    ids = rnd.sample(range(16), n_bs)
+    bs = {}
+    for k, i in enumerate(ids):
+        ang = 2 * math.pi * k / n_bs + rnd.uniform(-0.3, 0.3)
+        dist = rnd.uniform(2.0, 3.0)
+        pos = np.array([dist * math.cos(ang), dist * math.sin(ang), rnd.uniform(1.8, 3.0)])
+        target = np.array([rnd.uniform(-0.3, 0.3), rnd.uniform(-0.3, 0.3), rnd.uniform(0.0, 0.5)])
+        bs[i] = (look_at(pos, target, 0.0), pos)
+    cf, vis = [], []
+    for k in range(n_cf):
+        a, b = ids[k % n_bs], ids[(k + 1) % n_bs]
+        mid = (bs[a][1] + bs[b][1]) / 2
+        while True:
+            pos = np.array([rnd.uniform(-1, 1), rnd.uniform(-1, 1), rnd.uniform(0.0, 1.0)])
+            if np.linalg.norm((pos - mid)[:2]) > 0.8:
+                break
+        yaw = rnd.uniform(-math.pi, math.pi)
+        ta = rnd.uniform(0, 6.28)
+        R = rot_axis((0, 0, 1), yaw) @ rot_axis((math.cos(ta), math.sin(ta), 0), rnd.uniform(0, 0.15))
+        cf.append((R, pos))
+        vis.append([a, b])
+    return {'bs': bs, 'cf': cf, 'ids': ids, 'vis': vis}
